@@ -1,7 +1,7 @@
 """C10 — rounding-lowering rewrites leave the rounding function unchanged.
 
 Proof: coq/Lang/Lowering/Lower.v (templates of the five rewrites + the rewriting
-of whole lowered programs), LowerProofs.v, statements in coq/Props/C10.v.
+of whole lowered programs), Lower*Proofs.v, statements in coq/Props/C10.v.
 Tie: for every context of the enumeration (harness/c10lib.py) the real FPy
 function `def q(x): with C: y = fp.round(x)` is written to build/C10/*.py, each
 real strategy and every prefix of the documented chains is applied, and
@@ -10,13 +10,17 @@ real strategy and every prefix of the documented chains is applied, and
   * the original is compared with the model `vround` (= ctx_round0), the lowered
     program with the model's template `sem (rw T (LRound C))`, refusals with the
     model's `leaf_of T C = None`, the emitted contexts with the template's
-    contexts -- all decided by the extracted Gallina checker (ocaml oracle).
+    contexts -- all decided by the extracted Gallina checker (ocaml oracle);
+  * elim_round / insert_round are run on monomorphized `round` programs for
+    pairs (argument format, target context): wherever the real pass acts, the
+    rounding must be the identity on every member of the argument format.
 """
 import os
+import subprocess
 import time
 from multiprocessing import Pool
 
-from ..common import BUILD, Rng
+from ..common import BUILD
 from ..oracle import Oracle, enc
 from .. import c10lib as L
 
@@ -25,23 +29,31 @@ MANIFEST = {
             'unfold_neg_zero, float_to_fixed, rescale_fixed) is an identity between rounding functions on the proved '
             'context model (every family, mode, overflow mode, NaN/inf option, substitute, every operand), that a '
             'refused context is left unchanged, that representable operands make round_elim/round_insert sound, and '
-            'that every chain of rewrites preserves results; the Gallina templates are tied to /repo on every run by '
-            'applying the real strategies and chain prefixes to generated FPy functions for ~1500 small contexts and '
-            'comparing original, lowered program, model and template on exhaustive eighth-ulp operand grids.',
+            'that chains of rewrites preserve results (chain theorem partial: constructor invariants of emitted contexts '
+            'are hypotheses); two refusal conditions of the code as found are refuted (known findings). The Gallina '
+            'templates are tied to /repo on every run by applying the real strategies and chain prefixes to generated '
+            'FPy functions for ~2600 small contexts and comparing original, lowered program, model and template on '
+            'exhaustive eighth-ulp operand grids.',
     'technique': 'machine-checked proof in Coq (Flocq monotonicity/generic-format lemmas via N1) + extracted-model and '
                  'differential correspondence of the real strategies on exhaustive small-format grids',
 }
 
 KEY_WRAP = 'unfold_overflow-accepts-wrap'
 KEY_NEGZ = 'unfold_neg_zero-zero-bound'
-KEY_DEGEN = 'float_to_fixed-raises-on-zero-only-format'
+KEY_DEGEN = 'float_to_fixed-zero-only-format'
 
 WORKDIR = BUILD / 'C10'
 
 # witness contexts of the three known defects: which version of the code is this?
 W_WRAP = {'kind': 'smfixed', 'scale': 0, 'nbits': 3, 'rm': 'RNE', 'ov': 'WRAP'}
 W_NEGZ = {'kind': 'mpbfixed', 'nmin': -1, 'maxval': (False, 0, 3), 'neg_maxval': (False, 0, 0), 'rm': 'RNE', 'ov': 'SATURATE'}
-W_DEGEN = {'kind': 'efloat', 'es': 0, 'nbits': 2, 'enable_inf': True, 'nk': 'NEG_ZERO', 'eoffset': 0, 'rm': 'RNE', 'ov': 'OVERFLOW'}
+W_DEGEN = {'kind': 'efloat', 'es': 0, 'nbits': 2, 'enable_inf': True, 'nk': 'NONE', 'eoffset': 0, 'rm': 'RNE', 'ov': 'OVERFLOW'}
+
+WHAT = {'orig': 'Context.round and the proved context model disagree',
+        'declines': 'the strategy and the model disagree about refusing the context',
+        'template': 'the program the strategy emitted and the proved template disagree on an operand',
+        'structure': 'the contexts of the emitted program are not those of the proved template',
+        'identity': 'a rounding the pass removed/inserted is not the identity of the proved context model'}
 
 
 def probe_fixes():
@@ -51,7 +63,7 @@ def probe_fixes():
     for i, t in ((0, L.T_OVERFLOW), (1, L.T_NEGZERO), (2, L.T_F2F)):
         try:
             out.append(1 if L.refusals_T(t, getattr(mod, f'q{i}')) else 0)
-        except Exception:  # noqa  (the as-found float_to_fixed raises ValueError on the witness)
+        except Exception:  # noqa
             out.append(0)
     return out
 
@@ -63,7 +75,7 @@ def _is_zero_bound(d):
     return (nm is not None and nm[2] == 0 and not nm[0]) or (d['maxval'][2] == 0 and d['maxval'][0])
 
 
-def _classify(steps, d, want, got):
+def _classify(steps, d, want, got, degenerate):
     """known-finding key of a disagreement original/lowered, or None.
     steps: the rewrites that changed the program; want/got: res_key of original/lowered (None = several)"""
     if d.get('ov') == 'WRAP' and (L.T_OVERFLOW in steps or L.T_OVERFLOW_EARLY in steps):
@@ -72,6 +84,8 @@ def _classify(steps, d, want, got):
         # exactly: the original saturated onto the zero bound and the lowered program flipped its sign
         if want is None or (want[0] == 'fin' and got[0] == 'fin' and want[2] == 0 and got[2] == 0 and want[1] != got[1]):
             return KEY_NEGZ
+    if degenerate and L.T_F2F in steps:
+        return KEY_DEGEN
     return None
 
 
@@ -79,15 +93,37 @@ def _nan_blind(k):
     return ('nan',) if k[0] == 'nan' else k
 
 
+def _run_oracle(exe, lines):
+    """failing indices of the encoded lines, or an error string"""
+    if not lines:
+        return []
+    p = subprocess.run([exe], input='\n'.join(lines) + '\n', text=True, stdout=subprocess.PIPE, stderr=subprocess.PIPE)
+    bad, done = [], None
+    for ln in p.stdout.split('\n'):
+        if ln.startswith('DONE'):
+            done = int(ln.split()[1])
+        elif ln.strip():
+            bad.append(int(ln))
+    if p.returncode != 0 or done != len(lines):
+        return f'oracle run failed: {(p.stderr or "")[-300:]} (done={done}, expected {len(lines)})'
+    return bad
+
+
 def work(args):
-    ci, descs, cap, full_chains, fx = args
+    ci, descs, cap, full_chains, fx, exe = args
     import fpy2  # noqa
     from fpy2.transform.error import TransformDeclined
     t_cpu = time.process_time()
-    res = {'lines': [], 'viol': [], 'counts': {}, 'nontriv': [], 'broken': [], 'samples': []}
+    res = {'viol': [], 'counts': {}, 'nontriv': [], 'broken': [], 'samples': [], 'nlines': 0}
+    lines, meta = [], []
 
     def cnt(k, n=1):
         res['counts'][k] = res['counts'].get(k, 0) + n
+
+    def line(wire, kind, m):
+        lines.append(enc(wire))
+        meta.append((kind, m))
+        cnt('oracle:' + kind)
 
     live = []
     for d in descs:
@@ -103,6 +139,7 @@ def work(args):
         return res
     for i, d in enumerate(live):
         q = getattr(mod, f'q{i}')
+        ctx = getattr(mod, f'C{i}')
         wctx = L.e_ctx10(d)
         stoch = L.is_stochastic(d)
         ops = L.operands_for(d, cap)
@@ -113,8 +150,14 @@ def work(args):
         base = [L.run_fn(q, x) for x in xs]
         bkeys = [L.res_key(r) for r in base]
         cnt('ctx:' + d['kind'])
+        degenerate = False
+        if d['kind'] in ('efloat', 'ieee'):
+            try:
+                degenerate = bool(ctx.maxval().is_zero())
+            except Exception:  # noqa
+                degenerate = False
         for o, r, w in zip(ops, base, wx):
-            res['lines'].append(([0] + wctx + w + L.e_res(r), 'orig', (d, o), None))
+            line([0] + wctx + w + L.e_res(r), 'orig', (d, o))
         variants = []       # (name, wire prefix, function, steps that changed the program)
         crashed = set()
         for t in range(6):
@@ -124,13 +167,7 @@ def work(args):
                 sites = L.sites_T(t, q)
                 f = L.apply_T(t, q)
             except Exception as e:  # noqa
-                key = None
-                if t == L.T_F2F and isinstance(e, ValueError) and d['kind'] == 'efloat' and not fx[2]:
-                    try:
-                        if getattr(mod, f'C{i}').maxval().is_zero():
-                            key = KEY_DEGEN
-                    except Exception:  # noqa
-                        pass
+                key = KEY_DEGEN if (t == L.T_F2F and isinstance(e, ValueError) and degenerate and not fx[2]) else None
                 res['viol'].append((f'{name} raised {type(e).__name__} instead of rewriting or declining',
                                     {'ctx': d, 'error': str(e)[:300]}, key))
                 crashed.add(t)
@@ -150,7 +187,7 @@ def work(args):
                     cnt('TransformDeclined raised for a cursor naming a refused block')
                 except Exception as e:  # noqa
                     res['viol'].append((f'{name}: cursor naming a refused block raised {type(e).__name__}', {'ctx': d, 'error': str(e)[:200]}, None))
-            res['lines'].append(([2] + fx + [t] + wctx + [1 if declined else 0], 'declines', (d, name), None))
+            line([2] + fx + [t] + wctx + [1 if declined else 0], 'declines', (d, name))
             if changed:
                 variants.append((name, [1] + fx + [t], f, [t]))
                 # structure: the contexts the emitted program rounds under
@@ -162,11 +199,11 @@ def work(args):
                     ws = [L.e_ctx10(x) for x in ds if x['kind'] != 'real']
                     if t == L.T_SPECIAL:
                         if len(ws) == 1:
-                            res['lines'].append(([5] + wctx + ws[0], 'structure', (d, name), None))
+                            line([5] + wctx + ws[0], 'structure', (d, name))
                         else:
                             res['broken'].append(f'unfold_special: expected one surviving context, got {ds}')
                     else:
-                        res['lines'].append(([4] + fx + [t] + wctx + [len(ws)] + [v for w in ws for v in w], 'structure', (d, name), None))
+                        line([4] + fx + [t] + wctx + [len(ws)] + [v for w in ws for v in w], 'structure', (d, name))
         if not stoch:
             seen = []
             for cname, ch in L.CHAINS.items():
@@ -200,13 +237,13 @@ def work(args):
                 cnt('lowered-run:' + name.split('[')[0])
                 if (rk != bk) if not blind else (_nan_blind(rk) != _nan_blind(bk)):
                     nbad += 1
-                    key = _classify(steps, d, bk, rk)
+                    key = _classify(steps, d, bk, rk, degenerate and not fx[2])
                     keys.add(key)
                     if nbad <= 3:
                         res['viol'].append((f'{name} changed the result of the rounding',
                                             {'ctx': d, 'operand': o, 'original': L.show_res(b), 'lowered': L.show_res(r),
                                              'program': f.format() if nbad == 1 else '...'}, key))
-                res['lines'].append((wpre + wctx + w + L.e_res(r), 'template', (d, name, o), None))
+                line(wpre + wctx + w + L.e_res(r), 'template', (d, name, o))
                 if o[0] != 'fin' or b[0] == 'err' or (b[0] == 'ok' and bk[1:] != (o[1], _val(o))):
                     res['nontriv'].append(hash((name, str(sorted(d.items(), key=str)), o)))
             if nbad > 3:
@@ -215,6 +252,14 @@ def work(args):
                                     keys.pop() if len(keys) == 1 else None))
         if i == 0 and variants:
             res['samples'].append({'ctx': d, 'variant': variants[-1][0], 'program': variants[-1][2].format()[:600]})
+    res['nlines'] = len(lines)
+    bad = _run_oracle(exe, lines)
+    if isinstance(bad, str):
+        res['broken'].append(bad)
+    else:
+        for i in bad:
+            kind, m = meta[i]
+            res['viol'].append((WHAT[kind], {'ctx': m[0], 'case': [str(x) for x in m[1:]], 'wire': lines[i]}, None))
     cnt('worker-cpu-seconds', round(time.process_time() - t_cpu, 1))
     return res
 
@@ -244,10 +289,114 @@ def _apply_at(t, q, cursor):
     return S.rescale_fixed(q, cursor)
 
 
+# ---------------------------------------------------------------- round_elim / round_insert
+def identity_pairs(thorough):
+    """(argument format A, target context C) descriptors"""
+    fx_ = [{'kind': 'fixed', 'signed': True, 'scale': -1, 'nbits': 3, 'rm': 'RNE', 'ov': 'SATURATE'},
+           {'kind': 'fixed', 'signed': True, 'scale': -2, 'nbits': 5, 'rm': 'RTZ', 'ov': 'WRAP'},
+           {'kind': 'fixed', 'signed': False, 'scale': 0, 'nbits': 3, 'rm': 'RNE', 'ov': 'SATURATE'},
+           {'kind': 'fixed', 'signed': True, 'scale': 1, 'nbits': 3, 'rm': 'RNA', 'ov': 'OVERFLOW'},
+           {'kind': 'smfixed', 'scale': -1, 'nbits': 3, 'rm': 'RNE', 'ov': 'SATURATE'},
+           {'kind': 'smfixed', 'scale': -2, 'nbits': 5, 'rm': 'RTP', 'ov': 'SATURATE'},
+           {'kind': 'mpfixed', 'nmin': -3, 'rm': 'RNE'},
+           {'kind': 'mpbfixed', 'nmin': -2, 'maxval': (False, -1, 5), 'rm': 'RNE', 'ov': 'SATURATE'},
+           {'kind': 'mpbfixed', 'nmin': -3, 'maxval': (False, -2, 11), 'rm': 'RNE', 'ov': 'OVERFLOW', 'enable_inf': True, 'enable_nan': True}]
+    fl_ = [{'kind': 'ieee', 'es': 2, 'nbits': 4, 'rm': 'RNE', 'ov': 'OVERFLOW'},
+           {'kind': 'ieee', 'es': 3, 'nbits': 6, 'rm': 'RTZ', 'ov': 'OVERFLOW'},
+           {'kind': 'ieee', 'es': 2, 'nbits': 5, 'rm': 'RNE', 'ov': 'SATURATE'},
+           {'kind': 'efloat', 'es': 2, 'nbits': 4, 'enable_inf': False, 'nk': 'MAX_VAL', 'eoffset': 0, 'rm': 'RNE', 'ov': 'SATURATE'},
+           {'kind': 'efloat', 'es': 2, 'nbits': 5, 'enable_inf': False, 'nk': 'NEG_ZERO', 'eoffset': 0, 'rm': 'RNE', 'ov': 'OVERFLOW'},
+           {'kind': 'mpbfloat', 'p': 2, 'emin': -1, 'maxval': (False, 0, 3), 'rm': 'RNE', 'ov': 'OVERFLOW'},
+           {'kind': 'mpbfloat', 'p': 3, 'emin': -2, 'maxval': (False, 0, 7), 'rm': 'RAZ', 'ov': 'SATURATE'},
+           {'kind': 'mpsfloat', 'p': 2, 'emin': -1, 'rm': 'RNE'},
+           {'kind': 'mpsfloat', 'p': 4, 'emin': -3, 'rm': 'RTO'},
+           {'kind': 'mpfloat', 'p': 3, 'rm': 'RNE'}]
+    allc = fx_ + fl_
+    return [(a, c) for a in allc for c in allc]
+
+
+def identity_source(pairs):
+    lines = ['import fpy2 as fp', 'from harness.c10lib import mk_ctx10', '']
+    for i, (a, c) in enumerate(pairs):
+        lines += [f'A{i} = mk_ctx10({a!r})', f'C{i} = mk_ctx10({c!r})', '',
+                  '@fp.fpy', f'def e{i}(x: fp.Real) -> fp.Real:', f'    with C{i}:', '        y = fp.round(x)', '    return y', '',
+                  '@fp.fpy', f'def n{i}(x: fp.Real) -> fp.Real:', '    with fp.REAL:', '        y = fp.round(x)', '    return y', '']
+    return '\n'.join(lines) + '\n'
+
+
+def identity_work(args):
+    ci, pairs, exe = args
+    from fpy2.strategies import elim_round, insert_round, monomorphize
+    from fpy2.types import RealType
+    import fpy2 as fp
+    res = {'viol': [], 'counts': {}, 'nontriv': [], 'broken': [], 'samples': [], 'nlines': 0}
+    lines, meta = [], []
+
+    def cnt(k, n=1):
+        res['counts'][k] = res['counts'].get(k, 0) + n
+
+    try:
+        mod = L.load_module(WORKDIR, f'c10_ident_{ci}', identity_source(pairs))
+    except Exception as e:  # noqa
+        res['broken'].append(f'identity module {ci} did not load: {type(e).__name__}: {e}')
+        return res
+    for i, (a, c) in enumerate(pairs):
+        A, C = getattr(mod, f'A{i}'), getattr(mod, f'C{i}')
+        fmtA = A.format()
+        # every member of the argument format on the grid (and the specials it has)
+        members = []
+        for o in L.operands_for(a, 160):
+            x = L.mk_operand(o)
+            try:
+                if fmtA.representable_in(x):
+                    members.append((o, x))
+            except Exception:  # noqa
+                pass
+        for which, fn in (('elim_round', getattr(mod, f'e{i}')), ('insert_round', getattr(mod, f'n{i}'))):
+            try:
+                pinned = monomorphize(fn, fp.REAL, [RealType(A)])
+                out = elim_round(pinned) if which == 'elim_round' else insert_round(pinned, C)
+                acted = not out.ast.is_equiv(pinned.ast)
+            except Exception as e:  # noqa
+                if type(e).__name__ in ('TransformDeclined', 'TransformReferenceError'):
+                    cnt(which + ':refused')
+                    continue
+                # the pass did not run: format inference (C14) could not describe the pair; nothing was rewritten
+                cnt(f'{which}:raised {type(e).__name__} (format inference; not a rewrite)')
+                continue
+            cnt(which + (':acted' if acted else ':left alone'))
+            if not acted:
+                continue
+            wc = L.e_ctx10(c)
+            for o, x in members:
+                r0, r1 = L.run_fn(pinned, x), L.run_fn(out, x)
+                cnt('identity-run')
+                # a float context returns the one NaN it has: the sign of a NaN is not a value
+                if _nan_blind(L.res_key(r0)) != _nan_blind(L.res_key(r1)):
+                    res['viol'].append((f'{which} changed the result: the rounding it took for an identity is not one',
+                                        {'arg format': a, 'ctx': c, 'operand': o, 'before': L.show_res(r0), 'after': L.show_res(r1)}, None))
+                if o[0] == 'nan':
+                    continue
+                # the model: rounding this member under C returns it
+                lines.append(enc([0] + wc + _e_op(o) + L.e_res(('ok', x))))
+                meta.append(('identity', (c, which, a, o)))
+                cnt('oracle:identity')
+                res['nontriv'].append(hash((which, str(a), str(c), o)))
+    res['nlines'] = len(lines)
+    bad = _run_oracle(exe, lines)
+    if isinstance(bad, str):
+        res['broken'].append(bad)
+    else:
+        for i in bad:
+            kind, m = meta[i]
+            res['viol'].append((WHAT[kind], {'ctx': m[0], 'case': [str(x) for x in m[1:]], 'wire': lines[i]}, None))
+    return res
+
+
 def run(ck):
     thorough = ck.tier == 'thorough'
     ck.trusted += [
-        'Coq 8.16.1 kernel; Flocq (generic_format, round_le, round_generic, FLT/FIX formats)',
+        'Coq 8.16.1 kernel; Flocq (generic_format, round_le, round_generic, abs_round_ge/le_generic, FLT/FIX formats)',
         'hand-written Gallina templates coq/Lang/Lowering/Lower.v of fpy2/transform/unfold_*.py, float_to_fixed.py, '
         'rescale_fixed.py (decisions, probes and emitted program shapes); tie = this run: the real strategies are applied '
         'and executed, the extracted checker compares them with the templates',
@@ -255,16 +404,23 @@ def run(ck):
         'extraction (ExtrOcamlBasic only) + OCaml + ocaml/driver.ml',
         'semantics of the FPy operations the lowered programs use under fp.REAL (isnan, isinf, signbit, ==, <, >, copysign, '
         'logb, min, max, multiplication by a power of two) are modelled in Lower.v and validated by execution only',
-        'value-class analysis (which branches a rewrite may omit) is exercised through the chains, not modelled',
+        'value-class analysis (which branches a rewrite may omit) and format inference (round_is_identity, C14) are exercised '
+        'through the chains and through elim_round/insert_round on monomorphized programs, not modelled',
+        'Context.infval (the early-check threshold) is modelled (next_away); that it is a format member above maxval is a '
+        'hypothesis of early_check_sound, discharged for an example and validated by execution',
     ]
     ck.assumptions += [
         'operands are Float values (dyadic); non-dyadic reals reach a rounding only through an earlier rounding (C02)',
         'stochastic contexts: only refusals and special/zero operands are compared',
+        'the sign of a NaN is compared exactly except through rescale_fixed (2^k * NaN is +NaN under fp.REAL); the theorems do not compare it',
+        'chain theorem: constructor invariants of the contexts a rewrite emits are hypotheses (chain_ok), shown satisfiable on an example',
     ]
     ok, _ = ck.build_static(['Props/C10.v', 'Cases/C10Cases.v'])
     if ok:
         ck.props('Props/C10.v')
     orc = Oracle(ck, 'c10', 'Cases.C10Cases', 'check_line10')
+    if not orc.ok:
+        return
 
     descs = L.enumerate_contexts(thorough)
     lim = os.environ.get('C10_LIMIT')
@@ -276,22 +432,28 @@ def run(ck):
         rp = json.loads(open(ck.replay).read()).get('replay', {})
         if 'ctx' in rp:
             descs = [_undict(rp['ctx'])]
-    cap = 480 if thorough else 200
-    n = 10
-    # interleave so that every worker gets a mix of cheap and expensive families
-    order = sorted(range(len(descs)), key=lambda i: (i % 97, i))
-    descs = [descs[i] for i in order]
+    cap = 400 if thorough else 200
+    n = 8
     WORKDIR.mkdir(parents=True, exist_ok=True)
     fx = probe_fixes()
     ck.extra['code_version_switches'] = dict(zip(('fx_wrap', 'fx_zero_bound', 'fx_degenerate'), fx))
-    chunks = [(ci, descs[i:i + n], cap, thorough, fx) for ci, i in enumerate(range(0, len(descs), n))]
-    ck.log(f'{len(descs)} contexts in {len(chunks)} modules; refusals already present in the code under test: {fx}')
+    # interleave so that every worker gets a mix of cheap and expensive families
+    order = sorted(range(len(descs)), key=lambda i: (i % 89, i))
+    descs = [descs[i] for i in order]
+    chunks = [(ci, descs[i:i + n], cap, thorough, fx, str(orc.exe)) for ci, i in enumerate(range(0, len(descs), n))]
+    pairs = identity_pairs(thorough)
+    if lim:
+        pairs = pairs[::7]
+    ichunks = [(ci, pairs[i:i + 12], str(orc.exe)) for ci, i in enumerate(range(0, len(pairs), 12))]
+    ck.log(f'{len(descs)} contexts in {len(chunks)} modules, {len(pairs)} (argument format, context) pairs; '
+           f'refusals already present in the code under test: {fx}')
     t0 = time.time()
     with Pool(min(16, os.cpu_count() or 4)) as pool:
-        results = pool.map(work, chunks, chunksize=1)
-    ck.log(f'strategies applied and executed in {time.time() - t0:.1f}s')
+        r1 = pool.map_async(work, chunks, chunksize=1)
+        r2 = pool.map_async(identity_work, ichunks, chunksize=1)
+        results = r1.get() + r2.get()
+    ck.log(f'strategies applied, executed and compared with the extracted model in {time.time() - t0:.1f}s')
 
-    lines, meta = [], []
     for r in results:
         for k, v in r['counts'].items():
             ck.count(k, v)
@@ -303,28 +465,13 @@ def run(ck):
             ck.sample(s)
         for h in r['nontriv']:
             ck.nontrivial.add(h)
-        for wire, kind, m, key in r['lines']:
-            lines.append(enc(wire))
-            meta.append((kind, m, key))
-            ck.evaluations += 1
-            ck.count('oracle:' + kind)
+        ck.evaluations += r['nlines']
+    ck.checker_cmds.append('build/C10/oracle_c10/oracle < <cases of each worker>  # extracted check_line10')
     ck.rule = ('per context of the enumeration (ten families, small parameters, 8 modes, 4 overflow modes, NaN/inf options, '
                'substitutes incl. zeros/inf/NaN): every k*2^(nmin-3) up to past twice the bound, both zeros, +-inf, +-NaN, far '
-               'operands; x {original, 6 single rewrites, every prefix of 3-5 documented chains}; non-trivial = distinct '
+               'operands; x {original, 6 single rewrites, every prefix of 3-5 documented chains}; elim_round/insert_round on '
+               '19x19 (argument format, context) pairs x every member of the argument format; non-trivial = distinct '
                '(rewrite, context, operand) where the rounding is inexact, overflows, is special or raises')
-    ck.log(f'{len(lines)} oracle cases')
-    bad = orc.run(lines)
-    if bad is None:
-        return
-    for i in bad:
-        kind, m, key = meta[i]
-        d = m[0]
-        k = None
-        what = {'orig': 'Context.round and the proved context model disagree',
-                'declines': 'the strategy and the model disagree about refusing the context',
-                'template': 'the program the strategy emitted and the proved template disagree on an operand',
-                'structure': 'the contexts of the emitted program are not those of the proved template'}[kind]
-        ck.violation(what, {'ctx': d, 'case': [str(x) for x in m[1:]], 'wire': lines[i]}, key=k)
 
 
 def _undict(d):
